@@ -23,6 +23,18 @@ CHECKS = {
     "C05": ("5/C05", "PBT, pointwise scalar model incl. +infinity and documented errors",
             "Random programs of arithmetic, comparisons, min/max, dist-min, dist-inc, user maps and range queries over MT int/real, EV+ and EV* forests; pointwise scalar semantics; invalid scalar points must raise the documented error.",
             "scalar semantics of section 3.4; UNSPEC points skipped and counted; tolerance for reals"),
+    "C06": ("5/C06", "stateful PBT with exact reference recount after every API call and drain points",
+            "Random histories of constructions, operations, edge copies/assignments/releases, up to 70000 temporaries of one edge, cache clears, under optimistic/pessimistic/never deletion; after every step every live node's recorded incoming count must equal the harness' recount (parents + registered edges + nodes under construction), no live node may reference a reclaimed one, every held edge must still evaluate to its table; at drain points only nodes reachable from library-held registered edges may remain.",
+            "recount through the public inspection API plus the guarded root-edge visitor; error-raising calls are excluded (C16)"),
+    "C07": ("5/C07", "stateful PBT over compute-table configurations: model comparison + cache-count recount",
+            "Random histories under random CT style / stale policy / max size / compression with releases, stale removal and cache clears so that nodes die and handles are recycled; every result and every held edge is compared with the CT-independent model after every step, and every node's cache count with a recount of the table entries.",
+            "model is independent of any cache; compute_table::countAllNodeEntries + guarded cache-count accessor"),
+    "C11": ("5/C11", "PBT: iterator sequence vs sorted model set; counts vs own traversal",
+            "Random functions of every forest kind iterated with/without masks and counted; the visited sequence must be exactly the non-default assignments under the mask, in lexicographic order, with the right values; exhausted iterators are false and throw INVALID_ITERATOR; cardinality as long/double/mpz and node/edge counts are compared with the harness' own counts.",
+            "lexicographic order by level (unprimed before primed) as documented/used by the tests"),
+    "C12": ("5/C12", "configuration-differential PBT over storage x memory-manager x deletion policies",
+            "One random history executed under 12 (quick, covering) / 36 (thorough) policy combinations: every run must match the model pointwise and pass the structural audit, and the handle-free canonical forms and node counts of all produced edges must be identical across runs.",
+            "canonical form is structure-only for EV* (the library compares float edge values with a 1e-6 tolerance)"),
     "C10": ("5/C10", "PBT, conversion model + there-and-back identity",
             "Random functions copied between every pair of same-shape forest kinds; target compared pointwise with the converted source table; lossless round trips must give the identical edge.",
             "documented scalar conversions; EV+ infinity into non-EV+ targets is UNSPEC"),
